@@ -1,6 +1,8 @@
 """C15 — closed-form trainers: theorems (Props/C15.lean) + correspondence K-C15 between
 Model/Trainers.lean (driver drv_c15, exact `Rat` arithmetic) and the real Shark trainers
-(harness/c15.cpp, harness/c15b.cpp, harness/c15c.cpp) on integer datasets with explicit batch partitions.
+(harness/c15.cpp, harness/c15b.cpp, harness/c15c.cpp) on integer / dyadic datasets with explicit batch partitions:
+single ops on fresh objects and histories `op ; op ; ...` executed on the SAME trainer / model / output objects
+(every step must give what fresh objects give).
 
 Protocol (two passes, see lean/Driver/C15.lean): the harness prints what the real
 trainer returned (doubles exactly, FE_INEXACT flag per call, `!oracle` tags of the
@@ -31,24 +33,40 @@ MANIFEST = dict(
         "LDA: the matrix assembled from second moments is the pooled within-class covariance (lda_pooled_covariance, wlda_pooled_covariance for positive weights); with z_c*C = m_c the installed linear discriminant ranks classes exactly like the Gaussian log-posterior with shared covariance C "
         "(lda_bayes_rule_partial: excludes singular covariances whose range misses the class means, witness lda_partial_witness), statistics batch independent (lda_batch_independent); weighted LDA statistics are invariant under scaling all weights "
         "(weights_scale_invariant); FisherLDA's global mean sum_c n_c m_c / n is the mean of the inputs (fisher_mean; the pinned source divides twice, F-C15-6). "
+        "Objects used more than once: the model follows remora's matrix::resize (the linear storage keeps its old numbers, Mat.resize) and proves that "
+        "meanvar into an output matrix of any previous shape and content yields the covariance (meanvar_output_reuse), that PCA::setData leaves the same "
+        "decomposition on every object whatever it decomposed before, in either branch (pca_setData_history_independent, pca_reused_object_models, "
+        "pca_small_sample_object), and that the clear() of the small-sample branch is necessary (witness pca_setData_without_clear_depends_on_history). "
         "The model (Model/Trainers.lean) is tied to the real trainers on every run by a differential correspondence on integer datasets with explicit "
-        "batch partitions: values the model determines are compared EXACTLY when FE_INEXACT stayed clear during the Shark call and with relative "
+        "batch partitions, single ops on fresh objects AND histories `op ; op ; ...` of 2-4 ops executed on the SAME trainer, model and output objects "
+        "(PCA object through setData / train / the data constructor with whitening, algorithm and number of components changed in between; "
+        "LinearRegression, LDA (unweighted and weighted mixed) and FisherLDA re-configured through their setters or setParameterVector; one Normalizer "
+        "model re-trained with and without offset; one LinearModel shared by regression, whitening and ZCA; meanvar output arguments that arrive "
+        "filled; new data of another shape incl. more features than points after fewer and vice versa, the same data under another configuration, "
+        "identical repetition) -- every step of a history is judged against the model of that step alone, i.e. must equal what fresh objects give, and "
+        "the harness additionally compares bit for bit with freshly constructed objects (oracle tag reuse-dependent); data values are integers or dyadic "
+        "fractions (`op@s`: table * 2^-s, s <= 5) so that truncation to integers is visible; values the model determines are compared EXACTLY when FE_INEXACT stayed clear during the Shark call and with relative "
         "tolerance 1e-11 otherwise; results behind sqrt / the pivoted Cholesky solver / the eigen-solver are checked against their specification "
         "(A*beta = X^T L, s*s = var, W*Cov*W^T = t*I, Cov*v = lambda*v, V^T V = I, z*Cov = m) in exact rational arithmetic on the returned doubles "
         "(relative 1e-9); plus an independent plain-loop property oracle in the harness (gradient, output mean/variance/range/covariance, "
-        "orthonormality, projection, batch-partition and weight-scale invariance)."),
+        "orthonormality, projection, batch-partition invariance of every trainer (whitening: of W^T W, the factor itself is not unique; regular covariances only), "
+        "weight-scale invariance, variance()/covariance() wrappers)."),
   note=TRUST + "NOT proved: the specifications of sqrt/log/eigen-solver/pivoted Cholesky (hypotheses, checked at "
        "run time on the returned values), that ZCA's Q*D^(-1/2)*Q^T satisfies the factor specification, lda_bayes_rule (LDA is covered by the "
        "correspondence only: class means, pooled covariance, solve specification, bias vs log prior), FisherLDA (not modelled), floating-point rounding. "
-       "PCA whitening and toleranced comparisons are behind the eigen-solver (toleranced mode). Findings F-C15-1..8 (findings_proposed/C15.md): the check "
+       "PCA whitening and toleranced comparisons are behind the eigen-solver (toleranced mode). The history-independence theorems are about the object "
+       "model (PcaObject, meanvarInto); for the other trainers (no state besides their configuration) and for the models (setStructure overwrites) "
+       "independence of earlier use is checked by the correspondence on generated histories only (generator-bounded: 2-4 steps). Large-magnitude data "
+       "(2^6 and more) together with tiny regularisation is not generated: the rounding error of the ill-conditioned solves exceeds the comparison tolerances. Findings F-C15-1..8 (findings_proposed/C15.md): the check "
        "reports VIOLATION on the unpatched tree and is green on a tree with findings_proposed/C15.patch applied.",
   technique="Lean 4 proofs over exact rational arithmetic (all sizes, dimensions, batch partitions) + differential correspondence with the C++ trainers (ASan/UBSan, FE_INEXACT-gated exact comparison)",
   design="§6 C15")
 
 FINISH = dict(level="proof",
               rule="one op = one trainer call on an integer dataset with an explicit batch partition (SplitMix64 stream): "
-                   "meanvar, unitvar, unitint, linreg, whiten, zca, pca, lda, wlda, fisher; a case is non-trivial if it has >1 batch, "
-                   "a constant column, rank deficiency or d>n; distinct = distinct op text")
+                   "meanvar, unitvar, unitint, linreg, whiten, zca, pca/pcat/pcac (setData, train, constructor), lda, wlda, fisher, optionally `@s` "
+                   "(dyadic fractions); a line is one op on fresh objects or a history `op ; op ; ...` on the same objects; a case is non-trivial if it "
+                   "is a history or has >1 batch, a constant column, rank deficiency or d>n; distinct = distinct line text")
 
 ENV = {"OPENBLAS_NUM_THREADS": "1", "OMP_NUM_THREADS": "1"}
 HARNESS_A_OPS = ("meanvar", "unitvar", "unitint", "linreg", "whiten", "zca")
@@ -497,7 +515,8 @@ def classify(r):
     if op == "fisher" and ("fisher-mean" in r.oracle or "fisherlda-mean" in r.model):
         return ("F-C15-6:fisherlda-mean-divided-twice",
                 f"FisherLDA::meanAndScatter divides the global mean by the number of inputs twice: `{r.op}` -> {r.model[:160]}", bool(r.oracle))
-    if op == "fisher" and "fisher-direction-not-stationary" in r.oracle:
+    # only the listed defect itself: any further oracle tag or a model mismatch on the same input is reported on its own
+    if op == "fisher" and set(r.oracle) == {"fisher-direction-not-stationary"} and r.model.startswith("ok "):
         return ("F-C15-7:fisherlda-nonsymmetric-eigenproblem",
                 f"FisherLDA feeds the non-symmetric Sw^-1*Sb to the symmetric eigen-solver; returned directions do not satisfy Sb*w = lambda*Sw*w: `{r.op}`", True)
     if op == "lda" and "lda-n-equals-classes" in r.model:
